@@ -1,5 +1,13 @@
 #!/bin/bash
-# tools/seedqueue.sh ID...   -- for each id: move the worktree to /repo's HEAD and run seedrun for every delivered change
+# tools/seedqueue.sh [--recheck] ID...   -- for each id: move the worktree to /repo's HEAD and run seedrun for every delivered
+# change, with the checks taken from a snapshot of /verif's HEAD (so that edits in progress do not disturb the run)
+RECHECK=""
+if [ "$1" = "--recheck" ]; then RECHECK="--skip-verify"; shift; fi
+SNAP=/tmp/seed/vsnap
+rm -rf $SNAP; mkdir -p $SNAP
+git -C /verif archive HEAD | tar -x -C $SNAP
+mkdir -p $SNAP/mirfacts/target/release
+cp /verif/mirfacts/target/release/mirfacts $SNAP/mirfacts/target/release/
 for id in "$@"; do
   wt=/tmp/seed/$id
   git -C $wt checkout -q -- . 2>/dev/null
@@ -7,7 +15,7 @@ for id in "$@"; do
   for d in $wt/OUT/*/; do
     k=$(basename $d)
     [ -f $d/patch.diff ] || continue
-    python3 /verif/tools/seedrun.py $wt $k > /tmp/seed/results/${id}_$k.json 2>&1
-    echo "$(date +%H:%M) done $id $k" >> /tmp/seed/results/queue.log
+    python3 /verif/tools/seedrun.py $wt $k --verif $SNAP $RECHECK > /tmp/seed/results/${id}_$k.json.new 2>&1 && mv /tmp/seed/results/${id}_$k.json.new /tmp/seed/results/${id}_$k.json
+    echo "$(date +%H:%M) done $id $k $RECHECK" >> /tmp/seed/results/queue.log
   done
 done
